@@ -22,7 +22,45 @@ pub fn mk_genes(t: &Tree) -> Option<Vec<PushGene>> {
 fn run(input: &Tree) -> Option<Tree> {
     let l = input.list()?;
     let genes = mk_genes(l.get(1)?)?;
-    let plushy = Plushy::new(genes);
+    let mut plushy = Plushy::new(genes);
+    let kind = l.first()?.int()?;
+    if kind == 4 {
+        // genes overwritten IN PLACE (through Linear::gene_mut) after the genome was built: [4, genes, [[position, gene]...]]
+        use ec_linear::genome::Linear;
+        for e in l.get(2)?.list()? {
+            let e = e.list()?;
+            let g = mk_genes(&L(vec![e.get(1)?.clone()]))?.pop()?;
+            *plushy.gene_mut(e.first()?.usize()?)? = g;
+        }
+    }
+    if kind == 5 {
+        // translated three hundred times while ANOTHER thread keeps translating a genome with one long open block: the
+        // translation of a genome has nothing to do with what other threads translate
+        let stop = std::sync::atomic::AtomicBool::new(false);
+        let busy: Vec<PushGene> = std::iter::once(PushGene::Instruction(push::instruction::ExecInstruction::when().into()))
+            .chain((0..20_000).map(|i| PushGene::Instruction(push::instruction::PushInstruction::push_int(i))))
+            .collect();
+        let result = std::thread::scope(|sc| {
+            sc.spawn(|| {
+                while !stop.load(std::sync::atomic::Ordering::Relaxed) {
+                    let p: Vec<PushProgram> = Plushy::new(busy.clone()).into();
+                    std::hint::black_box(p);
+                }
+            });
+            let first: Vec<PushProgram> = plushy.clone().into();
+            let mut same = true;
+            for _ in 0..300 {
+                let again: Vec<PushProgram> = plushy.clone().into();
+                same &= again == first;
+            }
+            stop.store(true, std::sync::atomic::Ordering::Relaxed);
+            same.then_some(first)
+        });
+        return Some(match result {
+            Some(prog) => L(prog.iter().map(|p| prog_tree(p, &[])).collect::<Option<Vec<Tree>>>()?),
+            None => tl![A(-1)],
+        });
+    }
     let prog: Vec<PushProgram> = plushy.into();
     let out: Option<Vec<Tree>> = prog.iter().map(|p| prog_tree(p, &[])).collect();
     Some(L(out?))
@@ -103,6 +141,35 @@ fn gen(tier: &str, rng: &mut Sm) -> Gen {
         g.inputs.push(tl![A(3), L((0..n).map(|i| if i % 3 == 0 { tl![A(30)] } else { A(-1) }).collect())]);
     }
     g.inputs.push(tl![A(3), L(vec![tl![A(28)]; 1000])]);
-    g.meta("generator", "num_opens probe per instruction + exhaustive small genomes + random genomes (len<=400) + adversarial shapes (all closes, all openers to depth 1000, alternating) + exec literals carrying block-opening instructions / blocks");
+    // DEEP nesting whose structure is checked (not only that it returns): d openers, a gene, d closes, a gene - for depths
+    // around and beyond 2048
+    for d in [2047usize, 2049, 3000] {
+        for opener in [28i128, 27, 30] {
+            let mut genes: Vec<Tree> = vec![tl![A(opener)]; d];
+            genes.push(tl![A(6), A(1)]);
+            genes.extend(std::iter::repeat(A(-1)).take(d));
+            genes.push(tl![A(6), A(2)]);
+            g.inputs.push(tl![A(3), L(genes)]);
+        }
+    }
+    // genes overwritten in place after the genome was built: a flat genome gets its first block opener, an opener is removed
+    for (genes, edits) in [
+        (vec![tl![A(6), A(1)], tl![A(6), A(2)], tl![A(6), A(3)], A(-1), tl![A(6), A(4)]], vec![(1usize, tl![A(28)])]),
+        (vec![tl![A(6), A(1)], tl![A(6), A(2)], tl![A(6), A(3)]], vec![(0, tl![A(30)]), (2, A(-1))]),
+        (vec![tl![A(28)], tl![A(6), A(2)], A(-1), tl![A(6), A(3)]], vec![(0, tl![A(26)])]),
+        (vec![A(-1), A(-1), tl![A(6), A(3)]], vec![(0, tl![A(27)]), (1, tl![A(29)])]),
+        (vec![], vec![]),
+    ] {
+        let e: Vec<Tree> = edits.iter().map(|(p, gene)| tl![au(*p), gene.clone()]).collect();
+        g.inputs.push(tl![A(4), L(genes), L(e)]);
+    }
+    // translation while another thread translates
+    for genes in [
+        vec![tl![A(6), A(1)], A(-1), tl![A(28)], tl![A(6), A(2)], A(-1), tl![A(6), A(3)], A(-1), A(-1), tl![A(6), A(4)]],
+        vec![A(-1), tl![A(30)], tl![A(6), A(1)], A(-1), A(-1), tl![A(6), A(2)], A(-1), tl![A(6), A(3)]],
+    ] {
+        g.inputs.push(tl![A(5), L(genes)]);
+    }
+    g.meta("generator", "num_opens probe per instruction + exhaustive small genomes + random genomes (len<=400) + adversarial shapes (all closes, all openers to depth 1000, alternating) + exec literals carrying block-opening instructions / blocks; nesting to depth 2047 / 2049 / 3000 with the structure checked; genes overwritten in place; translation while another thread translates");
     g
 }
